@@ -33,6 +33,8 @@ pub enum Kind {
     Cl1024,
     Cl1025,
     Chunked10,
+    Cl8193,
+    Chunked3000,
 }
 
 impl Kind {
@@ -47,6 +49,8 @@ impl Kind {
             Kind::Cl1024 => post_cl(&p, &payload(1024)),
             Kind::Cl1025 => post_cl(&p, &payload(1025)),
             Kind::Chunked10 => post_chunked(&p, &payload(10), &[4, 6]),
+            Kind::Cl8193 => post_cl(&p, &payload(8193)),
+            Kind::Chunked3000 => post_chunked(&p, &payload(3000), &[1024, 1, 1975]),
         }
     }
     fn from_str(s: &str) -> Kind {
@@ -55,6 +59,8 @@ impl Kind {
             "Cl1024" => Kind::Cl1024,
             "Cl1025" => Kind::Cl1025,
             "Chunked10" => Kind::Chunked10,
+            "Cl8193" => Kind::Cl8193,
+            "Chunked3000" => Kind::Chunked3000,
             _ => Kind::None,
         }
     }
@@ -81,11 +87,13 @@ pub enum Release {
 pub struct Sc {
     pub kinds: Vec<Kind>,
     pub release: Release,
+    /// exchanges (GET, answered at once) on the connection before the pipeline is sent
+    pub history: usize,
 }
 
 impl Sc {
     fn to_json(&self) -> Value {
-        json!({"kinds": self.kinds.iter().map(|k| format!("{:?}", k)).collect::<Vec<_>>(), "release": format!("{:?}", self.release)})
+        json!({"kinds": self.kinds.iter().map(|k| format!("{:?}", k)).collect::<Vec<_>>(), "release": format!("{:?}", self.release), "history": self.history})
     }
     fn from_json(v: &Value) -> Sc {
         Sc {
@@ -99,6 +107,7 @@ impl Sc {
                 Some("Drop") => Release::Drop,
                 _ => Release::CollectAll,
             },
+            history: v["history"].as_u64().unwrap_or(0) as usize,
         }
     }
 }
@@ -120,6 +129,18 @@ pub fn body(sc: Sc, obs: Arc<Mutex<O>>) {
     let mut bytes = Vec::new();
     for (i, k) in sc.kinds.iter().enumerate() {
         bytes.extend_from_slice(&k.request(i));
+    }
+    for h in 0..sc.history {
+        let _ = c.send(&get(&format!("/h{}", h)));
+        match srv.server.recv() {
+            Ok(rq) => {
+                let _ = rq.respond(Response::from_string("h"));
+            }
+            Err(_) => break,
+        }
+    }
+    if sc.history > 0 {
+        ctl::settle();
     }
     ctl::window(true);
     let _ = c.send(&bytes);
@@ -143,10 +164,15 @@ pub fn body(sc: Sc, obs: Arc<Mutex<O>>) {
                 held.push(rq);
             }
             Release::ReadExactThenZero | Release::ReadDividingBlocks | Release::ReadBytewise => {
-                let len = if *k == Kind::Cl1025 { 1025 } else { 10 };
+                let len = match k {
+                    Kind::Cl1025 => 1025,
+                    Kind::Cl8193 => 8193,
+                    Kind::Chunked3000 => 3000,
+                    _ => 10,
+                };
                 let block = match sc.release {
                     Release::ReadExactThenZero => len,
-                    Release::ReadDividingBlocks => 5,
+                    Release::ReadDividingBlocks => if len % 5 == 0 { 5 } else { 3 },
                     _ => 1,
                 };
                 let mut buf = vec![0u8; block];
@@ -224,9 +250,9 @@ pub fn judge(sc: &Sc, o: &O, res: &RunResult) -> Vec<(String, String)> {
         f.push((format!("wrong-requests:{}", class), format!("obtained {:?}, sent {:?}", got, want)));
     }
     if o.done {
-        let st = crate::httpparse::parse_stream(&o.received, &vec![false; sc.kinds.len()]);
-        if st.error.is_some() || st.finals().len() != sc.kinds.len() {
-            f.push((format!("answers:{}", class), format!("{} answers for {} requests (parse error: {:?})", st.finals().len(), sc.kinds.len(), st.error)));
+        let st = crate::httpparse::parse_stream(&o.received, &vec![false; sc.kinds.len() + sc.history]);
+        if st.error.is_some() || st.finals().len() != sc.kinds.len() + sc.history {
+            f.push((format!("answers:{}", class), format!("{} answers for {} requests (parse error: {:?})", st.finals().len(), sc.kinds.len() + sc.history, st.error)));
         }
     } else if f.is_empty() {
         f.push(("hang".into(), format!("{:?} {:?}", res.end, res.blocked)));
@@ -237,7 +263,7 @@ pub fn judge(sc: &Sc, o: &O, res: &RunResult) -> Vec<(String, String)> {
 fn items(tier: Tier) -> &'static Vec<(Sc, u32)> {
     static Q: OnceLock<Vec<(Sc, u32)>> = OnceLock::new();
     static T: OnceLock<Vec<(Sc, u32)>> = OnceLock::new();
-    let cell = if !full(tier) { &Q } else { &T };
+    let cell = if !deep(tier) { &Q } else { &T };
     cell.get_or_init(|| {
         let thorough = full(tier);
         let all = [Kind::None, Kind::Cl1, Kind::Cl1024, Kind::Cl1025, Kind::Chunked10];
@@ -245,12 +271,14 @@ fn items(tier: Tier) -> &'static Vec<(Sc, u32)> {
         let mut v = Vec::new();
         let mut push = |kinds: Vec<Kind>, v: &mut Vec<(Sc, u32)>| {
             let n = kinds.len();
-            let bound = if thorough && n <= 2 { 2 } else if n <= 3 || (thorough && n <= 4) { 1 } else { 0 };
+            let bound = if deep(tier) {
+                if n <= 2 { 3 } else if n <= 3 { 2 } else if n <= 5 { 1 } else { 0 }
+            } else if thorough && n <= 2 { 2 } else if n <= 3 || (thorough && n <= 4) { 1 } else { 0 };
             if kinds.iter().all(|k| k.small()) {
-                v.push((Sc { kinds, release: Release::CollectAll }, bound));
+                v.push((Sc { kinds, release: Release::CollectAll, history: 0 }, bound));
             } else {
                 for r in [Release::ReadToEof, Release::ReadExactThenZero, Release::ReadDividingBlocks, Release::ReadBytewise, Release::Respond, Release::Drop] {
-                    v.push((Sc { kinds: kinds.clone(), release: r }, bound));
+                    v.push((Sc { kinds: kinds.clone(), release: r, history: 0 }, bound));
                 }
             }
         };
@@ -259,6 +287,37 @@ fn items(tier: Tier) -> &'static Vec<(Sc, u32)> {
             for i in 0..sp.size() {
                 push(sp.decode(i).into_iter().map(|d| all[d]).collect(), &mut v);
             }
+        }
+        if deep(tier) {
+            // thorough only: every pipeline of 5 over the five kinds; pipelines of 2..3 that
+            // contain a body beyond the 8 KiB discard buffer or a multi-chunk body beyond the
+            // 1 KiB read buffer
+            let sp = crate::props::Space::new(&vec![all.len(); 5]);
+            for i in 0..sp.size() {
+                push(sp.decode(i).into_iter().map(|d| all[d]).collect(), &mut v);
+            }
+            let more = [Kind::None, Kind::Cl1024, Kind::Cl1025, Kind::Cl8193, Kind::Chunked3000];
+            for n in 2..=3usize {
+                let sp = crate::props::Space::new(&vec![more.len(); n]);
+                for i in 0..sp.size() {
+                    let kinds: Vec<Kind> = sp.decode(i).into_iter().map(|d| more[d]).collect();
+                    if kinds.iter().any(|k| matches!(k, Kind::Cl8193 | Kind::Chunked3000)) {
+                        push(kinds, &mut v);
+                    }
+                }
+            }
+        }
+        // long pipelines and long histories (default schedule): nothing may depend on how many
+        // requests the connection has carried or holds
+        let long: Vec<usize> = if deep(tier) { (9..=140).chain([255, 256, 257, 300, 511, 512, 513, 1000, 1025, 2000]).collect() } else { vec![9, 16, 17, 32, 33, 63, 64, 65, 66, 100, 127, 128, 129, 130, 256, 257, 300] };
+        for n in long {
+            v.push((Sc { kinds: vec![Kind::None; n], release: Release::CollectAll, history: 0 }, 0));
+            if n <= 300 {
+                v.push((Sc { kinds: (0..n).map(|i| if i % 2 == 0 { Kind::Cl1 } else { Kind::None }).collect(), release: Release::CollectAll, history: 0 }, 0));
+            }
+        }
+        for h in if deep(tier) { (1..=300).chain([511, 512, 1023, 1024, 1025]).collect::<Vec<usize>>() } else { (1..=140).chain([255, 256, 257]).collect() } {
+            v.push((Sc { kinds: vec![Kind::None, Kind::Cl1024, Kind::None], release: Release::CollectAll, history: h }, 0));
         }
         for n in (if thorough { 5 } else { 4 })..=8 {
             let sp = crate::props::Space::new(&vec![2; n]);
@@ -301,8 +360,9 @@ impl Check for C11 {
     }
     fn rule(&self, tier: Tier) -> String {
         format!(
-            "pipelines of n = 2..{} requests over body kinds {{none, Content-Length 1 / 1024 / 1025, chunked 10}} and n = {}..8 over {{none, Content-Length 1024}}, sent in one piece; application program: pipelines whose bodies are all absent or <= 1024 bytes: collect all n requests with recv() before answering any (a request that does not become available leaves the application blocked: deadlock report = violation); otherwise a request with a larger or chunked body is read to its end (read_to_end; one read of exactly the body length then a read returning 0; blocks dividing the length; byte by byte) / answered / dropped and then the successor is waited for; {} scenarios, all schedules with at most 1 deviation (strict) for n <= {}, default schedule beyond; non-trivial = all",
-            if full(tier) { 4 } else { 3 }, if full(tier) { 5 } else { 4 }, items(tier).len(), if full(tier) { 3 } else { 2 }
+            "pipelines of n = 2..{} requests over body kinds {{none, Content-Length 1 / 1024 / 1025, chunked 10}} and n = {}..8 over {{none, Content-Length 1024}}, sent in one piece; application program: pipelines whose bodies are all absent or <= 1024 bytes: collect all n requests with recv() before answering any (a request that does not become available leaves the application blocked: deadlock report = violation); otherwise a request with a larger or chunked body is read to its end (read_to_end; one read of exactly the body length then a read returning 0; blocks dividing the length; byte by byte) / answered / dropped and then the successor is waited for; plus pipelines of up to 300 (thorough 2000) body-less / 1-byte-body requests collected before any answer, and pipelines of 3 collected after histories of 1..140, 255..257 (thorough 1..300, 511, 512, 1023..1025) answered exchanges on the same connection (default schedule); {} scenarios, all schedules with at most 1 deviation (strict) for n <= {}, default schedule beyond{}; non-trivial = all",
+            if full(tier) { 4 } else { 3 }, if full(tier) { 5 } else { 4 }, items(tier).len(), if full(tier) { 3 } else { 2 },
+            if deep(tier) { " || thorough adds: every pipeline of 5 over the five kinds, pipelines of 2..3 containing Content-Length 8193 or a 3000-byte body in chunks 1024/1/1975, and bounds 3 (n <= 2) / 2 (n = 3) / 1 (n <= 5)" } else { "" }
         )
     }
     fn assumptions(&self) -> Vec<String> {
